@@ -197,7 +197,8 @@ SmActBegin ==
 
 SmActEnd ==
   /\ Is("sm.action.end") /\ Adv
-  /\ LET skipped == ~Ev.ret /\ Ev.last = "skip" /\ ~sm.nf
+  /\ LET \* skipped by the action itself, or abandoned inside a draw by a generator that gave up (no call of the action ended it): not a falsification
+         skipped == ~Ev.ret /\ Ev.last \in {"skip", ""} /\ ~sm.nf
          ok == Ev.ret /\ ~sm.nf
      IN sm' = [sm EXCEPT !.inAct = FALSE, !.lastSkipped = skipped,
                          !.needInv = IF ok THEN sm.hasInv ELSE FALSE,
